@@ -7,6 +7,7 @@ pub mod node;
 pub mod rng;
 pub mod run;
 pub mod seam;
+pub mod store;
 pub mod world;
 
 use std::path::PathBuf;
